@@ -28,7 +28,9 @@ examined, `GenAlter` called itself on slice elements WITHOUT its options, so bel
 defaults applied — fixed in the repository since; the model follows whatever the source says), whether
 there is a `json.Number` clause, `alt.DefaultOptions` after `init`, the writers' Simplifier clause, and
 for every container arm whether it builds a container or writes into its argument
-(`Kind.sourceArms`, `Kind.armAgrees`; `C18.inPlace_matches_source`). -/
+(`Kind.sourceArms`, `Kind.armAgrees`; `C18.inPlace_matches_source`), and for the member loops of
+`Simplify` / `Dup` of gen.Array and gen.Object how each member is stored into the new container
+(`Kind.elemFns`, `elemDisciplineAgrees`; `C18.copy_elements_match_source`). -/
 namespace OjgVerif.Conv
 open OjgVerif.Gen.Conv
 
@@ -82,6 +84,26 @@ def Kind.armAgrees (k : Kind) (fa : String × String) : Bool :=
   match armFacts fa.1 fa.2 with
   | some (builds, writes) => builds == !k.inPlace && writes == k.inPlace
   | none => false
+
+/-- the Go methods whose member loop a copying kind on generic data stands for (keys of
+`Gen.Conv.elemStores`) -/
+def Kind.elemFns : Kind → List String
+  | .simplify => ["Array.Simplify", "Object.Simplify"]
+  | .genDup => ["Array.Dup", "Object.Dup"]
+  | _ => []
+
+/-- The copy discipline of the model against the member loop of the source. In the model every member
+of a container, WHATEVER its kind, goes through the recursive conversion (`forEach (conv k n _)`,
+`forEachKv (conv k n _) _`): a container member of either sort gets a fresh cell, a scalar is carried
+over as an immutable value, nil stays nil. The source agrees if every store into the container being
+built is unconditional (apart from the `m == nil` test) and stores either nil for a nil member or the
+result of the dynamically dispatched `m.<Method>()`; a store of the member itself ("shared"), a store
+under a type switch on the member (some kinds converted, others not) or under another condition does
+not. -/
+def elemDisciplineAgrees (fn : String) : Bool :=
+  let ss := elemStores.filter (fun s => s.1 == fn)
+  ss.any (fun s => s.2.2 == "rec") &&
+    ss.all (fun s => s.2.1 == "" && (s.2.2 == "rec" || s.2.2 == "nil"))
 
 /-- a nil slice / nil map comes back as a new empty container (`make(gen.Array, len(tv))`,
 `gen.Object{}`, `make([]any, len(tv))`, `map[string]any{}`); the other conversions hand nil on
@@ -182,6 +204,21 @@ def condOmit (opt : Opt) (H : Heap) (y : Ref) : Bool :=
   | .bool .simple b => opt.omitEmpty && !b
   | .int .simple i => opt.omitEmpty && i == 0
   | _ => false
+
+/-- the rows of `condOmit`, clause by clause, in the notation of `Gen.Conv.omitTable`: Go type of the
+converted member `x`, condition under which it is left out. No row for `float64`, `json.Number`,
+`time.Time` or a node of package gen: those are always stored. -/
+def condOmitRows : List (String × String) :=
+  [("nil", "opt.OmitNil || opt.OmitEmpty"),          -- `.null`
+   ("string", "opt.OmitEmpty && len(x) == 0"),        -- `.str .simple s`
+   ("[]any", "opt.OmitEmpty && len(x) == 0"),         -- `.arr .simple a` with an empty cell, `.nilArr .simple`
+   ("map[string]any", "opt.OmitEmpty && len(x) == 0"),-- `.obj .simple a` with an empty cell, `.nilObj .simple`
+   ("bool", "opt.OmitEmpty && !x"),                   -- `.bool .simple b`
+   ("int64", "opt.OmitEmpty && x == 0")]              -- `.int .simple i`
+
+/-- the source's table for function `fn` -/
+def omitRowsOf (fn : String) : List (String × String) :=
+  (omitTable.filter (fun r => r.1 == fn)).map (·.2)
 
 /-- is the converted member value `y` left out of the resulting map? -/
 def omits (k : Kind) (opt : Opt) (H : Heap) (y : Ref) : Bool :=
